@@ -702,6 +702,29 @@ theorem replay_tail {l : List Chunk} (hc : Contig l) {off : Nat} (hb : Boundary 
       simp [hnil] at this
     · exact Or.inr h
 
+/-! ### the idle watchdog only ever cancels -/
+
+/-- `cancel` changes nothing but an empty cancel slot. -/
+theorem step_cancel_eq {f : Facts} {m : OvMode} (s : State) (r : Nat) :
+    (step f m s (.cancel r)).1 = if s.poisoned = false ∧ s.cancelled = none then { s with cancelled := some r } else s := by
+  unfold step
+  by_cases hp : s.poisoned = true
+  · simp [hp]
+  · have hpf : s.poisoned = false := by simpa using hp
+    cases hc : s.cancelled <;> simp [hpf, hc]
+
+/-- Whatever the watchdog saw and whatever the clock says, a visit leaves every field alone except that it
+may fill an empty cancel slot with the idle reason. -/
+theorem watchdog_visit_effect {f : Facts} {m : OvMode} (s : State) (saw idle : Bool) :
+    run f m s (watchdogVisit saw idle) = s ∨
+    (s.cancelled = none ∧ run f m s (watchdogVisit saw idle) = { s with cancelled := some idleReason }) := by
+  unfold watchdogVisit
+  cases saw <;> cases idle <;> simp [run]
+  rw [step_cancel_eq]
+  by_cases h : s.poisoned = false ∧ s.cancelled = none
+  · simp [h]
+  · simp [h]
+
 /-! ### the release profile never panics -/
 
 theorem addU64_wraps_ok (form : SumForm) (a b : Nat) : ∃ r, addU64 form .wraps a b = .ok r := by
